@@ -163,6 +163,8 @@ func main() {
 		switch leg.Kind {
 		case "mc":
 			runMC(cfg, leg, res)
+		case "apalache":
+			runApalache(cfg, leg, res)
 		case "trace":
 			runTrace(cfg, leg, res)
 		case "exec":
@@ -357,6 +359,37 @@ func prepSpecDir(name string) (string, error) {
 		os.WriteFile(filepath.Join(dir, filepath.Base(f)), b, 0o644)
 	}
 	return dir, nil
+}
+
+// runApalache discharges the three obligations of an inductive invariant (module leg.Module: ConstInit, IndInv, Safety over
+// the protocol named by TLCArgs[0] = Init and TLCArgs[1] = Next) with the symbolic checker. Like every model-only leg its
+// failure is a failure of the model, never a verdict about the code.
+func runApalache(cfg *propCfg, leg legCfg, res *result) {
+	dir, err := prepSpecDir("apa-" + leg.Name)
+	if err != nil {
+		res.infraf("%v", err)
+		return
+	}
+	obligations := [][]string{
+		{"Init => IndInv", "--init=" + leg.TLCArgs[0], "--inv=IndInv", "--length=0"},
+		{"IndInv /\\ Next => IndInv'", "--init=IndInv", "--inv=IndInv", "--length=1"},
+		{"IndInv => Safety", "--init=IndInv", "--inv=Safety", "--length=0"},
+	}
+	for i, ob := range obligations {
+		args := []string{fmt.Sprint(int(leg.Timeout.Seconds())), "apalache-mc", "check", "--out-dir=" + filepath.Join(dir, fmt.Sprint("out", i)), "--cinit=ConstInit", "--next=" + leg.TLCArgs[1]}
+		args = append(args, ob[1:]...)
+		args = append(args, leg.Module+".tla")
+		cmd := exec.Command("timeout", args...)
+		cmd.Dir = dir
+		out, werr := cmd.CombinedOutput()
+		ok := werr == nil && bytes.Contains(out, []byte("The outcome is: NoError"))
+		res.mu.Lock()
+		res.tlcRuns = append(res.tlcRuns, fmt.Sprintf("apalache %s: %s: %v", leg.Module, ob[0], map[bool]string{true: "discharged", false: "NOT discharged"}[ok]))
+		res.mu.Unlock()
+		if !ok {
+			res.infraf("apalache obligation %q of %s was not discharged (%v)\n%s", ob[0], leg.Module, werr, tail(string(out), 2000))
+		}
+	}
 }
 
 func runMC(cfg *propCfg, leg legCfg, res *result) {
